@@ -135,6 +135,11 @@ def value_term(v, t, index):
         if not isinstance(v, (tuple, list)) or len(v) != len(t) - 1:
             raise Unsupported('expected %d-tuple, got %r' % (len(t) - 1, v))
         return '(' + ', '.join(value_term(x, tt, index) for x, tt in zip(v, t[1:])) + ')'
+    if t[0] == 'sum':
+        try:
+            return '(Sum.inl %s)' % value_term(v, t[1], index)
+        except Unsupported:
+            return '(Sum.inr %s)' % value_term(v, t[2], index)
     raise Unsupported('type %r' % (t,))
 
 
